@@ -15,7 +15,9 @@ if/else, for/else, sequencing.
 * `pokeErr` is `StrictUndefined.__getattribute__` + the dunder methods, per kind: which access raises.
   `isinstance(u, T)` for a class `T` that `type(u)` is not a subclass of falls back to `u.__class__`, which is an
   ordinary attribute access and therefore a poke (`Poke.cls`) — that is why `StrictUndefined` raises inside
-  `num_arg` / `string_filter` although they only call `isinstance`.
+  `num_arg` / `string_filter` although they only call `isinstance`.  `isinstance(u, Undefined)` and
+  `isinstance(u, Mapping)` read `u.__class__` too: `Undefined` is an ABC (`Mapping`), and `ABCMeta.__instancecheck__`
+  starts with `instance.__class__` — so `is_undefined(u)` itself raises for `StrictUndefined`.
 * filters are a parameter (`FilterSem`) of the interpreter; `builtinFilters` gives eight concrete ones written with
   the same conversions the decorators perform.
 
@@ -219,11 +221,14 @@ def truthy (v : Val) : Except Err Bool :=
   | .error e => .error e
   | .ok d => .ok (truthyD d)
 
-/-- `LoopExpression._to_iter(v)`: an `Undefined` is a `Mapping`, so `v.items()` and `len(v)` are called -/
+/-- `LoopExpression._to_iter(v)`: an `Undefined` is a `Mapping` (the `isinstance` test reads `__class__`), so
+    `v.items()` and `len(v)` are called -/
 def toIter : Val → Except Err (List Data)
-  | .undef k => match poke k .iter with
+  | .undef k => match poke k .cls with              -- isinstance(obj, Mapping): ABCMeta reads obj.__class__
     | .error e => .error e
-    | .ok _ => .ok []
+    | .ok _ => match poke k .iter with              -- obj.items()
+      | .error e => .error e
+      | .ok _ => .ok []
   | .data (.dict kvs) => .ok (kvs.map (fun kv => .list [.str kv.1, kv.2]))
   | .data (.list xs) => .ok xs
   | .data (.str s) => .ok (if s.isEmpty then [] else [.str s])     -- string_sequences is off
@@ -623,9 +628,11 @@ def fSplit (v a : Val) : Except Err Val :=
   match strArg v with
   | .error e => .error e
   | .ok s => match a with
-    | .undef k => (match poke k .attr with                   -- sep.poke()
+    | .undef k => (match poke k .cls with                    -- isinstance(sep, Undefined): ABCMeta reads __class__
       | .error e => .error e
-      | .ok _ => .ok (.data (charsOf s)))
+      | .ok _ => match poke k .attr with                      -- sep.poke()
+        | .error e => .error e
+        | .ok _ => .ok (.data (charsOf s)))
     | .data d => .ok (.data (splitD s d))
 
 /-- the filter table of the driver; a wrong number of arguments is a `TypeError` (→ `LiquidTypeError`) -/
